@@ -14,7 +14,7 @@ TEXT = {
     "C08": "full proof on the stream-layer model: readline under any read schedule (readline_sim), whole NextBlock (next_block_sim), whole runs and the fault clause (C08_stream_eq, C08_fault), any block machine satisfying three stated laws; tie: streaming implementation under generated schedules/faults vs the in-memory model on the delivered prefix",
     "C09": "partial proof: the block-quote clause at the block layer is proved for every tab-free document (parseBlocks_quote: one quote whose children are the blocks of D under the position map, definitions included); end to end with rendering on slices (text lines behind '> ', a bullet or an ordered marker); the inline pass inside the quote for general D and the list-item clause: nesting oracle on the implementation (D vs contents of quote(D) / item(D), safe-mode HTML) plus model/implementation correspondence on each variant",
     "C10": "full proof on the model: Walk with the renderer's callbacks writes exactly the structural reading renderB of the tree, for every block and configuration (C10_appendBlock, walk_is_spec); tie: the structural renderer run on the implementation's own tree dump reproduces the implementation's bytes in all 30 configurations; determinism / tree untouched / joining observed on the implementation",
-    "C11": "proof that the openers_bottom search bounds never change the result of process-emphasis (abstract lists of any length, and on the transcription of processEmphasis); full statement proved end to end on a vertical slice (C11_slice: lines of any length over letters, spaces, '*', '_' and a few ASCII punctuation bytes parse to exactly the forest the spec's delimiter-run procedure denotes); flanking flags and tokenisation tied by exhaustive correspondence up to a length bound; oracle = independent transcription of the spec procedure without the bound",
+    "C11": "proof that the openers_bottom search bounds never change the result of process-emphasis (abstract lists of any length, and on the transcription of processEmphasis); full statement proved end to end on a vertical slice (C11_slice2: lines of any length over letters, digits, spaces, '*', '_', most ASCII punctuation, Unicode white space, Unicode punctuation and non-ASCII letters from explicit families parse to exactly the forest the spec's delimiter-run procedure denotes); flanking flags and tokenisation tied by exhaustive correspondence up to a length bound; oracle = independent transcription of the spec procedure without the bound",
     "C12": "partial proof: closure clause for every input and matcher (C12_closure), Extract = first-wins fold in source order; label normalisation = the CommonMark definition for labels in one span, adjacent spans, and spans with gaps (container prefixes, Indent entries) under the entry conditions the block layer establishes (label_norm_spans); end to end on a slice (C12_refslice); case-folding table generated from x/text and judged against an independent normaliser",
     "C13": "full proof on the model: C13_full = Props.C13_statement (for every input every block and inline node has a valid span and the shape of its construct); tie: (kind, span) correspondence plus the shape oracle and the formal statement evaluated on the implementation's trees",
     "C14": "proof on the model: CR clause through the whole pipeline for every input (parseFull_cr, renderDoc_cr: rendered HTML equal up to LF/CR); at the block layer: padding clause for every input (parseBlocks_blank_prefix), final-newline clause for every input (parseBlocks_final_newline, exact tree relation), CRLF clause for every input without '[' and for every input below the 999-step label limit (parseBlocks_crlf_nobracket, parseBlocks_crlf_limit); beyond that the CRLF statement is false (finding D24 and its tab variant, witnesses proved); tie and the rendering level of the other clauses: correspondence on the variants plus the oracle",
